@@ -249,8 +249,12 @@ def generate(tier):
             it = (kind,) if val is None else (kind, val)
             applies = d in READS_TYPE
             must = 'reject' if applies else None
-            for layout in ('within', 'across'):
-                ea = [[it, it]] if layout == 'within' else [[it], [it]]
+            # 'apart': another item stands between the two occurrences (a check that only compares neighbours misses it)
+            between = ('prefix', 'q') if kind != 'prefix' else ('serialize_all', 'snake_case')
+            for layout in ('within', 'across', 'within-apart', 'across-apart', 'first-and-last'):
+                ea = {'within': [[it, it]], 'across': [[it], [it]], 'within-apart': [[it, between, it]],
+                      'across-apart': [[it], [between], [it]],
+                      'first-and-last': [[it, between], [('ascii_case_insensitive',) if kind != 'ascii_case_insensitive' else ('use_phf',), it]]}[layout]
                 if kind in ('parse_err_ty', 'parse_err_fn'):
                     other = ('parse_err_fn', 'perr') if kind == 'parse_err_ty' else ('parse_err_ty', 'PErr')
                     ea = ea + [[other]]
@@ -259,13 +263,16 @@ def generate(tier):
             applies = d in READS_TYPE
             cs.add(d, cs.enum(d, base, dattrs=[[(kind, val), (kind, val)]]), 'R4-disc-%s-within' % kind, 'reject' if (applies and d == 'EnumDiscriminants') else None)
             cs.add(d, cs.enum(d, base, dattrs=[[(kind, val)], [(kind, val)]]), 'R4-disc-%s-across' % kind, 'reject' if (applies and d == 'EnumDiscriminants') else None)
+            cs.add(d, cs.enum(d, base, dattrs=[[(kind, val), ('derive', 'Hash'), (kind, val)]]), 'R4-disc-%s-within-apart' % kind, 'reject' if (applies and d == 'EnumDiscriminants') else None)
+            cs.add(d, cs.enum(d, base, dattrs=[[(kind, val)], [('derive', 'Hash')], [('doc', 'd')], [(kind, val)]]), 'R4-disc-%s-across-apart' % kind, 'reject' if (applies and d == 'EnumDiscriminants') else None)
         # R4 variant level
         for kind, val in (('message', 'm'), ('detailed_message', 'dm'), ('to_string', 't'), ('transparent', None), ('disabled', None),
                           ('default', None), ('default_with', 'f'), ('ascii_case_insensitive', None)):
             it = (kind,) if val is None else (kind, val)
             applies = d in READS_VARIANT
-            for layout in ('within', 'across'):
-                groups = [[it, it]] if layout == 'within' else [[it], [it]]
+            sep = ('serialize', 'zz')
+            for layout in ('within', 'across', 'within-apart', 'across-apart'):
+                groups = {'within': [[it, it]], 'across': [[it], [it]], 'within-apart': [[it, sep, it]], 'across-apart': [[it], [sep], [it]]}[layout]
                 for pos in (positions if tier == 'thorough' or kind in ('disabled', 'to_string') else ['middle']):
                     for vk in (('unit',) if d in UNIT_ONLY else ('unit', 'tuple1')):
                         v = unit('Bad', *groups) if vk == 'unit' else tup('Bad', ['String'], *groups)
